@@ -167,6 +167,20 @@ impl Triple {
         }
         Ok(raws)
     }
+    fn del(&mut self, k: &[u8]) -> Result<(), String> {
+        let m = self.map.as_mut().unwrap();
+        match crate::session::guarded(crate::session::STEP_BUDGET_BASE, || m.delete(k)) {
+            crate::session::Guard::Ok(Ok(got)) => {
+                let want = self.model.remove(k);
+                if got != want {
+                    return Err(format!("delete of a key of length {} returned a value of length {:?}, the model holds {:?}", k.len(), got.map(|g| g.len()), want.map(|g| g.len())));
+                }
+                Ok(())
+            }
+            crate::session::Guard::Ok(Err(e)) => Err(format!("delete returned Err: {e}")),
+            crate::session::Guard::Hang(m) | crate::session::Guard::Panic(m) => Err(format!("delete panicked/hung: {m}")),
+        }
+    }
     fn close(&mut self) {
         self.map = None;
         self.db = None;
@@ -267,6 +281,72 @@ fn key_case(a: &Args, l: u32, high_value_offsets: bool, ctx: &mut Ctx) -> Result
     Ok(())
 }
 
+/// Free slots of the shared large list (>= 1024 bytes) with a record of length `lp` as the *predecessor* of the slot
+/// that is taken out of the middle of the list: d, c, p are freed in that order (list p -> c -> d), a request that
+/// fits c but not p unlinks c (p's link field is rewritten: its position depends on the width of p's slot-size
+/// field), the next requests take p, walk on to d and reuse it. Sentinels sit in front, between and behind; a
+/// link that went astray hands a live slot to a later request. `keys`: the large records are keys, not values.
+fn freelist_case(a: &Args, lp: u32, keys: bool, ctx: &mut Ctx) -> Result<(), String> {
+    let mut t = Triple::new(a.scratch.join(if keys { "c09fk" } else { "c09fv" }));
+    let big = |tag: u8, len: u32| -> Vec<u8> {
+        let mut v = crate::util::gen_bytes(len as usize, len ^ tag as u32, 0);
+        if !v.is_empty() {
+            v[0] = tag;
+        }
+        v
+    };
+    // a live record at low offsets (a stray link shifted right by one byte lands in the first few hundred slots)
+    let lead = if keys { 30_000u32 } else { 48_880 };
+    let ld = if lp >= 100_000 { 70_000u32 } else { lp / 2 + 1100 };
+    let lc = lp + lp / 2 + 2048;
+    let (lc, lreq) = if keys && lc > 65_535 && lp <= 65_535 { (65_535, (lp + 65_535) / 2) } else { (lc, lp + lp / 4 + 1024) };
+    let mut sentinels: Vec<Vec<u8>> = Vec::new();
+    let put_big = |t: &mut Triple, tag: u8, len: u32| -> Result<Vec<u8>, String> {
+        if keys {
+            let k = big(tag, len);
+            t.put(&k, &[tag; 5])?;
+            Ok(k)
+        } else {
+            let k = vec![b'K', tag];
+            t.put(&k, &big(tag, len))?;
+            Ok(k)
+        }
+    };
+    let mut sentinel = |t: &mut Triple, i: u8| -> Result<(), String> {
+        let k = format!("sentinel{i}").into_bytes();
+        t.put(&k, &crate::util::gen_bytes(20 + i as usize * 7, i as u32, 0))?;
+        sentinels.push(k);
+        Ok(())
+    };
+    let _lead = put_big(&mut t, 1, lead)?;
+    sentinel(&mut t, 0)?;
+    let kd = put_big(&mut t, 2, ld)?;
+    sentinel(&mut t, 1)?;
+    let kc = put_big(&mut t, 3, lc)?;
+    sentinel(&mut t, 2)?;
+    let kp = put_big(&mut t, 4, lp)?;
+    sentinel(&mut t, 3)?;
+    let w: Vec<&[u8]> = sentinels.iter().map(|k| &k[..]).collect();
+    // (no raw-byte comparison here: deleting or adding a key of the same bucket legitimately rewrites the chain link
+    // inside a sentinel's key record; every live entry is read back and the files are decoded after each step)
+    t.check(&w, ctx)?;
+    for order in [[&kd, &kc, &kp]] {
+        for k in order {
+            t.del(k)?;
+        }
+    }
+    t.check(&w, ctx).map_err(|e| format!("after deleting three large records: {e}"))?;
+    // does not fit p (the head), fits c: unlinked from the middle, p is its predecessor, d its successor
+    for (i, len) in [lreq, lp.saturating_sub(40).max(1024), ld.saturating_sub(40).max(1024), 40_000, 1500].into_iter().enumerate() {
+        put_big(&mut t, 10 + i as u8, len)?;
+        t.check(&w, ctx).map_err(|e| format!("after request {} (length {len}) served from the large free list: {e}", i + 1))?;
+        ctx.count("freelist.requests_served", 1);
+    }
+    ctx.count(if keys { "freelist.key_cases" } else { "freelist.value_cases" }, 1);
+    t.close();
+    Ok(())
+}
+
 fn run_lengths(a: &Args, ctx: &mut Ctx, vals: &[u32], keys: &[u32]) {
     for (i, &l) in vals.iter().enumerate() {
         if i % a.nshards != a.shard {
@@ -351,7 +431,36 @@ pub fn run(a: &Args) -> Ctx {
     keys.extend_from_slice(&[65_536, 65_537, 70_000, 130_900, 130_950, 131_050, 131_071, 131_072, 131_080, 140_000]);
     keys.sort_unstable();
     keys.dedup();
-    run_lengths(a, &mut ctx, &vals, &keys);
+    // large free list: predecessor lengths on both sides of every width of the slot-size field
+    let mut preds: Vec<(u32, bool)> = Vec::new();
+    for lp in [1100u32, 2000, 5000, 16_300, 16_500, 65_000, 130_900, 131_050, 131_060, 131_064, 131_072, 131_200, 140_000, 200_000, 1 << 20, (1 << 21) + 77] {
+        preds.push((lp, false));
+    }
+    for lp in [1100u32, 5000, 16_300, 40_000, 65_535, 131_100, 140_000] {
+        preds.push((lp, true));
+    }
+    if a.thorough {
+        preds.push((16_777_100, false));
+        preds.push(((1 << 24) + 4096, false));
+    }
+    let mut stopped = false;
+    for (i, &(lp, k)) in preds.iter().enumerate() {
+        if i % a.nshards != a.shard {
+            continue;
+        }
+        ctx.evaluations += 1;
+        ctx.digests.insert((2 << 32) | ((k as u64) << 31) | lp as u64);
+        ctx.nontrivial.insert((2 << 32) | ((k as u64) << 31) | lp as u64);
+        if let Err(m) = freelist_case(a, lp, k, &mut ctx) {
+            let st = ctx.classify(finding(&["C09"], "sweep", 1, format!("large free list, predecessor {} of length {lp}: {m}", if k { "key" } else { "value" })));
+            ctx.record_stop(st, None);
+            stopped = true;
+            break;
+        }
+    }
+    if !stopped {
+        run_lengths(a, &mut ctx, &vals, &keys);
+    }
     ctx.drain_notes();
     let mut s = J::obj();
     s.set("kind", J::s("end-to-end sweep: sentinel A, X(L), sentinel B adjacent; X overwritten by L-1, L+1, class-crossing, L/2, L"));
